@@ -479,6 +479,9 @@ func Rename(oldname, newname string) error {
 
 //gosym:replace os.Symlink
 func Symlink(oldname, newname string) error {
+	if oldname == "" {
+		return &os.LinkError{Op: "symlink", Old: oldname, New: newname, Err: syscall.ENOENT}
+	}
 	rp, n, e := resolve(newname, false)
 	if e != 0 {
 		return &os.LinkError{Op: "symlink", Old: oldname, New: newname, Err: e}
